@@ -39,6 +39,9 @@ def judge(pre, op, out, ctx):
         tag = '%s@%s' % (op[0], v.st if v else 'conn')
         if isinstance(f, hf.HeadersFrame):
             end = 'END_STREAM' in f.flags
+            # priority information travels in HEADERS as well as in PRIORITY frames
+            check(client or 'PRIORITY' not in f.flags, 'server-sends-priority-in-headers',
+                  F.op_label(op))
             if v.st == IDLE:
                 check(client, 'server-opens-stream-with-headers', F.op_label(op))
                 if ctx.me.config.validate_outbound_headers:
@@ -71,6 +74,8 @@ def extra_ops(client, sids):
     A = []
     for sid in sids:
         A += [('send_headers', sid, 'post', False), ('send_headers', sid, 'resp204', True)]
+        for kind in (('req',) if client else ('resp', 'info', 'trailers')):
+            A.append(('send_headers', sid, kind, kind == 'trailers', 'prio'))
     return A
 
 
